@@ -42,7 +42,59 @@ def dict_cases(rng):
     return out
 
 
+def gen_json(rng, d=0):
+    k = rng.random()
+    if d >= 3 or k < 0.25:
+        return rng.choice([1, 2.5, -3, True, False, None, "a", "文", ""])
+    if k < 0.55:
+        return [gen_json(rng, d + 1) for _ in range(rng.randrange(0, 4))]
+    keys = rng.sample(["a", "b", "c", "d", "e", "f", "g", "键", "k1", "k2"], rng.randrange(2, 7))
+    return {kk: gen_json(rng, d + 1) for kk in keys}
+
+
+JSON_PROG = ("导入《@JSON》\n输入文本\n令结果 = （解析JSON：文本）\n（显示：结果）\n"
+             "（显示：（生成JSON：【“v” = 结果】））\n输出结果\n")
+
+
+def json_determinism(chk, n, replay=None):
+    """values built by a library (解析JSON) and handed back (生成JSON, display, result): the same program on the same input, executed
+    eight times in one process, must give one outcome.  No model is involved: any difference between two runs is a violation."""
+    import json as _json
+    rng = chk.rng
+    docs = []
+    if replay is not None:
+        docs = [replay["document"]]
+    else:
+        docs.append('{"条目":[{"a":1,"b":2,"c":3,"d":4,"e":5,"f":6},{"z":true,"y":null,"x":"s","w":[{"k":1,"j":2,"i":3}]}]}')
+        for _ in range(n):
+            top = gen_json(rng)
+            if not isinstance(top, (dict, list)):
+                top = {"v": top, "w": [gen_json(rng, 1), gen_json(rng, 1)]}
+            docs.append(_json.dumps(top, ensure_ascii=rng.random() < 0.3, separators=rng.choice([(",", ":"), (", ", ": ")])))
+    cases = [{"src": JSON_PROG, "mode": "exec", "inputs": {"文本": {"t": "str", "v": [ord(c) for c in d]}}, "repeat": 8} for d in docs]
+    outs = core.harness("sem", "run", cases, timeout_ms=8000)
+    for d, o in zip(docs, outs):
+        chk.count(["json", d])
+        chk.dist("json-determinism")
+        runs = o.get("runs") if isinstance(o, dict) else None
+        if not runs:
+            chk.violation("repeated execution of the JSON program crashed: %s" % str(o)[:200], "json:crash", {"kind": "json", "document": d, "observed": o})
+            continue
+        def key(r):
+            return _json.dumps({k: v for k, v in r.items() if k in ("kind", "value", "display", "err")}, sort_keys=True, ensure_ascii=False)
+        distinct = sorted({key(r) for r in runs})
+        if len(distinct) > 1:
+            show = ["".join(chr(c) for c in (r.get("display") or [[]])[0]) for r in runs[:4]]
+            chk.violation("the same program on the same input gave %d different outcomes in 8 runs (解析JSON of %s): first displays %s"
+                          % (len(distinct), d[:200], show), "json:nondeterministic",
+                          {"kind": "json", "document": d, "program": JSON_PROG, "outcomes": distinct[:4], "replay_cmd": "./check C11 --replay <this file>"})
+
+
 def run(chk, replay=None):
+    if replay is not None and replay.get("kind") == "json":
+        json_determinism(chk, 0, replay)
+        return
+    json_determinism(chk, 40 if chk.tier == "quick" else 600) if replay is None else None
     extra = dict_cases(chk.rng) if replay is None else []
     semprop.run_property(chk, "C11", "c11", PROFILES, 90, 900, replay=replay, extra_programs=extra, repeat=6,
                          what="outcome depends on something other than program and inputs")
